@@ -30,7 +30,7 @@ var c *common.Ctx
 
 const header = `From Coq Require Import List NArith ZArith String.
 From Coq Require Import Strings.Byte.
-From GoBT Require Import lib.Bytes lib.Hex model.Tx model.Amount model.Json corr.C16.
+From GoBT Require Import lib.Bytes lib.Hex model.Tx model.Amount model.Json model.JsonHeap corr.C16.
 Import ListNotations. Local Open Scope N_scope. Local Open Scope string_scope.
 `
 
@@ -584,6 +584,9 @@ func utxosCase(us bt.UTXOs) {
 
 func utxosCase1(us bt.UTXOs) {
 	in := map[string]interface{}{"count": len(us)}
+	if len(us) <= 12 {
+		in["utxos"] = snapUs(us)
+	}
 	ldoc, ok := marshal("json.Marshal(bt.UTXOs)", us, in)
 	if !ok {
 		return
@@ -605,18 +608,18 @@ func utxosCase1(us bt.UTXOs) {
 	if !unmarshal("json.Marshal(bt.UTXOs)", ldoc, &l3, in) || !unmarshal("json.Marshal(utxos.NodeJSON())", ndoc, n3.NodeJSON(), in) {
 		return
 	}
-	for _, got := range []bt.UTXOs{l2, n2, l3, n3} {
+	for k, got := range []bt.UTXOs{l2, n2, l3, n3} {
 		bad := len(got) != len(us)
 		for i := 0; !bad && i < len(us); i++ {
 			a, u := got[i], us[i]
-			bad = !bytes.Equal(a.TxID, u.TxID) || a.Vout != u.Vout || a.Satoshis != u.Satoshis || scriptHex(a.LockingScript) != scriptHex(u.LockingScript)
+			bad = a == nil || !bytes.Equal(a.TxID, u.TxID) || a.Vout != u.Vout || a.Satoshis != u.Satoshis || scriptHex(a.LockingScript) != scriptHex(u.LockingScript)
 		}
 		if bad {
-			c.Violate("json.Marshal(bt.UTXOs)/roundtrip-fields", "list differs", in)
+			c.Violate("json.Marshal(bt.UTXOs)/roundtrip-fields", "list differs ("+[]string{"library dialect", "node dialect", "library dialect, into a variable that held two UTXOs", "node dialect, into a variable that held three UTXOs"}[k]+"): "+firstDiff(snapUs(got), snapUs(us)), in)
 		}
 	}
 	c.Tally("utxos")
-	c.Case("", map[string]interface{}{"kind": "utxos", "count": len(us)}, "utxos"+string(ldoc), len(us) > 0)
+	c.Case(utxosCoq(us, l2, n2), map[string]interface{}{"kind": "utxos", "count": len(us), "lib": trunc(string(ldoc))}, "utxos"+string(ldoc), len(us) > 0)
 }
 
 // ---------- amounts ----------
@@ -888,6 +891,11 @@ func main() {
 			txsCase(pool[:n])
 		}
 	}
+	// 2b. round 8 (round8.go): lists with repeated / near-identical elements, destinations with a past, sizes of
+	// 64 KiB .. 1 MiB
+	repeatFamily(r, big, pool)
+	pastFamily(r, big, pool)
+	sizeFamily(r, big)
 	// 3. outputs and UTXOs: boundary amounts x script shapes
 	scripts := [][]byte{{}, common.Unhex("76a914000102030405060708090a0b0c0d0e0f1011121388ac"), {0x6a}, {0x00, 0x6a, 0x01, 0xff}, {0x4c}, {0x01}, r.Bytes(40)}
 	amts := []uint64{0, 1, 2, 3, 6, 545, 546, 99999999, 100000000, 100000001, 2099999999999999, maxMoney, maxMoney + 1, 1 << 53, 1<<53 + 1, 1<<63 - 1, 1 << 63, 1<<64 - 1}
@@ -965,6 +973,6 @@ func main() {
 		amountList(l)
 	}
 
-	c.Stats.Rule = "transactions at every build stage through the public API (tx.From = unsigned, FillInput on one input = partially signed, FillAllInputs = signed, NewTxFromBytes of the extended bytes = decoded) plus generated transactions (nil/empty unlocking scripts, arbitrary output script bytes, boundary uint32/uint64 values), each marshalled and unmarshalled in the library and the node dialect and with the node document's hex removed (vin/vout path); transactions whose locking / unlocking scripts are data scripts with two pushes of 0..6 bytes each (both carrier forms), zero-length PUSHDATA forms alone and concatenated, truncated pushes and lone opcodes; marshalling must leave the source transaction byte-identical; lists of 0/1/2/5, also unmarshalled into variables that already hold three transactions (with and without spare capacity); NEAR-MISSES of every standard script template (harness/scriptnear: P2PKH, P2PK 33/65, P2SH, bare multisig 0-of-1 / 1-of-1 / 1-of-2 / 2-of-3 / 15-of-15 / 1-of-16 / 16-of-16, both data carriers, four P2PKH inscriptions built by Tx.Inscribe, three unlocking-script shapes): each token and each range of tokens removed, each token doubled, each push re-cut to the lengths 0..3, n-2..n+2, 18..22, 32..34, 64..66, 75, 76 (every length 0..24 for a hash), replaced by the empty / long push forms, cut short, re-encoded, each opcode replaced by every small-integer opcode with both neighbours and by the template opcodes, all pushes emptied or cut to 1..3 bytes at once and in pairs, every truncation, single bytes at the structural positions (thorough: every value), and a grid OP_m <k keys> OP_n OP_CHECKMULTISIG over m in {0,1,2,16} x n in OP_0, OP_1NEGATE..OP_NOP x k in {0,1,2,3,15,16,17} keys present - each script with capacity = length in an output, in a transaction as locking script (every other one also as unlocking script; as built and as decoded), in a UTXO, and eight at a time in lists of transactions and of UTXOs, both dialects and the vin/vout path (Go level, all cores); a seed-chosen 1/97 of them (thorough 1/211) through the full transaction / output / UTXO cases and 1/13 (thorough 1/47) as CNodeScript cases (asm, reqSigs, type of the node document against the model of bscript's inspection code that the any-script theorems are about); outputs and UTXOs over boundary amounts (0,1,2,3,6,dust,1e8+-1,21e14+-1,2^53,2^63,2^64-1) x script shapes incl. nil script / odd txid lengths for UTXOs; amounts: every amount 0..9999 (thorough: 0..2,999,999) in ranges of 1000, k*10^j-1/+0/+1/+half for k in 1..9,21 and j in 0..15, 2^k-1/+0/+1 for k in 0..51, and random amounts up to 21e14 - each observed through output.NodeJSON() and utxo.NodeJSON() (float64 bits of the value written, satoshis read back). distinct = distinct serialised input; non-trivial = transactions with at least one input or output, every output/UTXO/amount case"
+	c.Stats.Rule = "transactions at every build stage through the public API (tx.From = unsigned, FillInput on one input = partially signed, FillAllInputs = signed, NewTxFromBytes of the extended bytes = decoded) plus generated transactions (nil/empty unlocking scripts, arbitrary output script bytes, boundary uint32/uint64 values), each marshalled and unmarshalled in the library and the node dialect and with the node document's hex removed (vin/vout path); transactions whose locking / unlocking scripts are data scripts with two pushes of 0..6 bytes each (both carrier forms), zero-length PUSHDATA forms alone and concatenated, truncated pushes and lone opcodes; marshalling must leave the source transaction byte-identical; lists of 0/1/2/5, also unmarshalled into variables that already hold three transactions (with and without spare capacity); NEAR-MISSES of every standard script template (harness/scriptnear: P2PKH, P2PK 33/65, P2SH, bare multisig 0-of-1 / 1-of-1 / 1-of-2 / 2-of-3 / 15-of-15 / 1-of-16 / 16-of-16, both data carriers, four P2PKH inscriptions built by Tx.Inscribe, three unlocking-script shapes): each token and each range of tokens removed, each token doubled, each push re-cut to the lengths 0..3, n-2..n+2, 18..22, 32..34, 64..66, 75, 76 (every length 0..24 for a hash), replaced by the empty / long push forms, cut short, re-encoded, each opcode replaced by every small-integer opcode with both neighbours and by the template opcodes, all pushes emptied or cut to 1..3 bytes at once and in pairs, every truncation, single bytes at the structural positions (thorough: every value), and a grid OP_m <k keys> OP_n OP_CHECKMULTISIG over m in {0,1,2,16} x n in OP_0, OP_1NEGATE..OP_NOP x k in {0,1,2,3,15,16,17} keys present - each script with capacity = length in an output, in a transaction as locking script (every other one also as unlocking script; as built and as decoded), in a UTXO, and eight at a time in lists of transactions and of UTXOs, both dialects and the vin/vout path (Go level, all cores); a seed-chosen 1/97 of them (thorough 1/211) through the full transaction / output / UTXO cases and 1/13 (thorough 1/47) as CNodeScript cases (asm, reqSigs, type of the node document against the model of bscript's inspection code that the any-script theorems are about); ROUND 8 (round8.go): SIZES - transactions whose serialisation is exactly 2^16-1 / 2^16 / 2^16+1 (every run, each of five shapes: one big data output, one big non-data locking script, one big unlocking script, thousands of P2PKH outputs, thousands of inputs), 2^17-1..2^17+1, 2^20-1..2^20+1 and a random size in 64 KiB .. 1 MiB (thorough: every edge 2^16..2^20 +-1 and six random sizes per shape), as built and as decoded, alone and in lists next to a small one / twice, their big scripts in an output and a UTXO of their own and in UTXO lists, all outputs of a many-output transaction as one UTXO list of one txid, lists of 253 / 1000 / 65537 elements - every container of both dialects and the vin/vout path at the Go level, one transaction just above 64 KiB per run also on the model (CBig: big parts written as generator expressions expanded inside Coq, documents and read-back serialisations compared through SHA-256); REPEATS - UTXO lists with the same object twice, equal copies, one txid (one slice) with vouts n,n+1,n+1,n, one outpoint with two amounts / two scripts / amounts one satoshi apart, txids one bit apart, five times the same, and random draws with replacement from pools of three plus such variants (model cases CUtxos: every element read back in both dialects); transaction lists with the same transaction object twice, equal copies, copies one field apart (locktime, version, one amount, one sequence number); transactions with the same input two to four times, the same output object twice and equal outputs; DESTINATIONS WITH A PAST - for every UnmarshalJSON entry point (Tx, Txs, Output, UTXO, UTXOs; library and node dialect; node transactions and lists also without hex) the document of a generated source is decoded into: values built the way the library builds them (every UTXO of one previous transaction referring to ONE txid slice, scripts shared by pointer with that transaction, transactions built with FromUTXOs from them, shallow copies of one transaction), lists shorter / as long / longer than the document, lists of length 1 whose backing array holds stale elements, values another document was decoded into before, the source itself, txid slices that are overlapping windows of one buffer, nil pointer variables, one object refreshed from four documents in a row; the result must be the source's fields whatever the destination held, and objects that are NOT the destination (the previous transaction, a spending transaction, another UTXO of the same txid slice, the caller's struct copy) must read as before; plus random heaps for model/JsonHeap.v (CInto: 1-4 buffers, 1-5 UTXO objects whose txid is a window of a buffer and whose script is a buffer's script object, a destination backing array of 0-6 slots with nil and repeated pointers and any length, 0-5 documents: the elements afterwards AND every object of the heap afterwards against the model of encoding/json's array decoding + UTXO.UnmarshalJSON / the node wrappers); outputs and UTXOs over boundary amounts (0,1,2,3,6,dust,1e8+-1,21e14+-1,2^53,2^63,2^64-1) x script shapes incl. nil script / odd txid lengths for UTXOs; amounts: every amount 0..9999 (thorough: 0..2,999,999) in ranges of 1000, k*10^j-1/+0/+1/+half for k in 1..9,21 and j in 0..15, 2^k-1/+0/+1 for k in 0..51, and random amounts up to 21e14 - each observed through output.NodeJSON() and utxo.NodeJSON() (float64 bits of the value written, satoshis read back). distinct = distinct serialised input; non-trivial = transactions with at least one input or output, every output/UTXO/amount case"
 	c.Finish()
 }
